@@ -12,7 +12,7 @@ import EV.Model.PsetBlindZn
 
   lists are comma separated, `-` = empty; scalars 32-byte big-endian hex.
   inputs:   <hasUtxo><hasIssuance><blindedIssuance: n|digit>[+<asset id of an issuance pseudo-input>]*
-  outputs:  amount:asset:key:bidx:addr:<7 flags amountComm assetComm ecdh rangeproof surjproof valueProof assetProof>
+  outputs:  amount:asset:key:bidx:addr:<7 flags amountComm assetComm ecdh rangeproof surjproof valueProof assetProof>[:<script provably unspendable 0|1>]
   supplied: idx:asset:value:abf:vbf      rands: idx:abf:vbf      allins: asset:value:abf:vbf
 -/
 namespace EV.Driver.C09
@@ -53,7 +53,8 @@ def inp? (s : String) : Option Inp :=
     | _, _ => none
 
 def out? (s : String) : Option (Out Zn) :=
-  match s.splitOn ":" with
+  -- an optional 7th field (script provably unspendable, used by the flow verdict only) is dropped
+  match (s.splitOn ":").take 6 with
   | [am, asst, key, bidx, addr, flags] =>
     match optNat? am, optNat? asst, bool? key, optNat? bidx, bool? addr, mapM? (fun c => bool? (String.singleton c)) flags.toList with
     | some am, some asst, some key, some bidx, some addr, some [f1, f2, f3, f4, f5, f6, f7] =>
@@ -62,6 +63,20 @@ def out? (s : String) : Option (Out Zn) :=
              valueProof := f6, assetProof := f7 }
     | _, _, _, _, _, _ => none
   | _ => none
+
+/-- 7th field of an output token: `Script::is_provably_unspendable` (OP_RETURN, > 10000 bytes, or
+    empty); absent = 0 -/
+def unsp (s : String) : Bool :=
+  match s.splitOn ":" with
+  | [_, _, _, _, _, _, u] => u == "1"
+  | _ => false
+
+/-- `verify_tx_amt_proofs` on explicit zero amounts: an output that is explicit in the extracted
+    transaction (no amount commitment) with value 0 is skipped when its script is provably
+    unspendable (`ZeroValueCommitment`) and rejects the transaction otherwise
+    (`NonUnspendableZeroValue`) -/
+def zeroOutsOk (outs : List (Out Zn)) (unsps : List Bool) : Bool :=
+  (outs.zip unsps).all fun (o, u) => o.amountComm || o.amount != some 0 || u
 
 def sup? (s : String) : Option (Nat × Secret Zn) :=
   match s.splitOn ":" with
@@ -149,14 +164,14 @@ def runTrace (st : St Zn) : List (Step Zn) → Nat → List String → Except St
     | .panic _ => .error s!"panic@{k}"
 
 def flowOp : Handler
-  | _, ins :: outs :: allins :: steps =>
-    match mapM? inp? (list ins), mapM? out? (list outs), mapM? secret? (list allins), mapM? step? steps with
+  | _, ins :: outsTok :: allins :: steps =>
+    match mapM? inp? (list ins), mapM? out? (list outsTok), mapM? secret? (list allins), mapM? step? steps with
     | some ins, some outs, some allins, some steps =>
       match runTrace ⟨ins, outs, []⟩ steps 1 [] with
       | .error e => e
       | .ok (st', trace) =>
         let termBal := sumTerms allins == outTermSum st'
-        let verify := termBal && amountsBalance allins st'.outputs
+        let verify := termBal && amountsBalance allins st'.outputs && zeroOutsOk st'.outputs ((list outsTok).map unsp)
         let full := st'.outputs.all fun o => !o.hasKey || o.isFullyBlinded
         s!"ok {";".intercalate trace} verify={b01 verify} empty={b01 st'.scalars.isEmpty} full={b01 full}"
     | _, _, _, _ => "bad-op"
